@@ -68,6 +68,11 @@ def gen(d, tier):
         actions.append([S.AT_STALL, k, S.WA_HOLDEXIT, d.below(2), 0, None])
         actions.append([S.AT_STALL, k, S.WA_ISHOLD, 0, 0, None])
     s = S.mk_spec(cmds, input=inp, qcap=qcap, bufsz=64, rs=G.g_sched(d, 4), ws=G.g_sched(d, 8), actions=actions, flags=S.WF_SAMPLE)
+    if d.unlikely(1, 4):
+        # the same history with a (never failing, not recursive) mutex configured: a release requested by an event handler from inside
+        # cat_service must work there too
+        s["mutex"] = dict(lockfail=[], unlockfail=[])
+        s["flags"] |= S.WF_SAMPLE_LOCKED
     return dict(spec=s)
 
 
@@ -197,6 +202,8 @@ def run(case, W):
         labels.append("hold-exit-from-event-handler")
     if queued_behind:
         labels.append("line-queued-behind")
+    if s.get("mutex") is not None:
+        labels.append("mutex-configured")
     nt = len(windows) >= 2 or bool(spurious) or (delivered_during and queued_behind)
     return Result(labels=labels, nontrivial=nt, runs=runs)
 
